@@ -15,6 +15,8 @@ CLAIMED = {
  'C04': ('model_checking', 'symbolic pointer + symbolic memory: value map lane i <-> element i, access-footprint obligations over the executor\'s access log (every access inside [p, p+size*sizeof(T)), every byte covered, nothing around the object modified), alignment attribute of each access implied by the entry point\'s contract, gather/scatter address sets with symbolic index batches', '5 C04', 'IR symbolic execution with symbolic memory + SMT; access-log footprint/alignment obligations'),
  'C15': ('model_checking', 'the real supported_arch constructor and dispatcher executed symbolically with CPUID/XGETBV results as symbolic registers; availability implications, completeness, monotonicity and the dispatch call trace decided for all register values', '5 C15', 'IR symbolic execution with symbolic CPUID/XCR0 registers + SMT; call-trace obligations'),
  'C18': ('model_checking', 'allocate/deallocate executed symbolically with posix_memalign/free as contract stubs and symbolic n; block size compared in 128-bit arithmetic; is_aligned and get_alignment_offset for all pointers/sizes/blocks', '5 C18', 'IR symbolic execution with nondeterministic allocator stub + SMT'),
+ 'C02': ('model_checking', 'symbolic execution of every basic FP kernel; oracle = SMT-LIB FloatingPoint theory (IEEE-754 RNE): arithmetic, sign/bit manipulation, fma family with fused/unfused latitude, min/max, predicates, sign/signnz, frexp, ldexp (single rounding in a wider sort), nextafter, for all bit patterns', '5 C02', 'IR symbolic execution + SMT (QF_FP/QF_BV) per-lane equivalence, native replay'),
+ 'C08': ('model_checking', 'symbolic execution of ceil/floor/trunc/round/nearbyint/rint/nearbyint_as_int/to_int kernels (hardware round* models and the conversion-based generic path); oracle = fp.roundToIntegral / fp.to_sbv for every float32 and float64', '5 C08', 'IR symbolic execution + SMT (QF_FP) per-lane equivalence'),
 }
 NA = {
  'C10': 'no SMT theory contains exp/log/sin/erf/gamma: an ulp bound against the real-valued function cannot be expressed as a solver query over the code (DESIGN.md section 6); exhausting 2^32 inputs would be enumeration, a different technique',
